@@ -728,7 +728,8 @@ def run(ctx):
     for kind, lo in (("rsa", 8), ("dsa", 4), ("elg", 2), ("ecc", 27)):
         ctx.require(a.n.get("gen_%s_key" % kind, 0) >= lo, "generate(): fewer than %d %s keys were produced" % (lo, kind))
     ctx.require(a.n.get("gen_refused", 0) >= 15, "generate(): illegal parameters / domains were not refused")
-    ctx.require(a.n.get("gen_rsa_injected", 0) >= 2, "generate(): the candidate q = p was never offered")
+    ctx.require(a.n.get("gen_rsa_injected", 0) >= 4 and a.n.get("gen_rsa_injected_all_candidates_consumed", 0) >= 4,
+                "generate(): the candidates q = p / q near p were never offered (or not all of them were read)")
     ctx.require(a.distinct.get("gen_dsa_x", set()) >= {"1", "q-1", "mid"}, "DSA.generate boundary tapes did not give x = 1 and x = q-1")
     bd = a.distinct.get("gen_ecc_boundary", set())
     ctx.require(all((cn, k) in bd for cn in H.WEIER for k in ("d=1", "d=n-1", "mid")),
@@ -760,6 +761,11 @@ def run(ctx):
     ctx.pmap(P.ec_worker, P.ec_shards())
     ctx.require(a.n.get("ec_accept", 0) >= 500 and a.n.get("ec_refuse", 0) >= 5000, "EC: accept/refuse classes too small")
     ents = a.distinct.get("ec_entries", set())
+    nmb = a.distinct.get("ec_near_miss_bits", set())
+    for cn in H.ALL:
+        wbits = 64 * ((E.CURVES[cn].p.bit_length() + 63) // 64)
+        have = len({b for (c_, f_, b) in nmb if c_ == cn and f_ == "montgomery"})
+        ctx.require(have >= wbits - 8, "EC near misses on %s: only %d of %d bit positions of the Montgomery form produced a case" % (cn, have, wbits))
     ctx.require(len(ents) >= 55, "EC: fewer than 55 (curve, entry point / format) combinations were exercised (%d)" % len(ents))
     # ---- flips ----
     ctx.pmap(F.flip_worker, F.flip_shards(q))
@@ -796,6 +802,9 @@ def run(ctx):
             "flip": "%d encodings, %d single-bit flips" % (len(F.targets()), a.n.get("flip_cases", 0)),
         },
         "ec_entry_points_exercised": len(ents),
+        "ec_near_miss": {"cases": a.n.get("ec_near_miss_cases", 0), "bit_positions": len(nmb),
+                         "what": "points whose curve-equation sides (public values: whose value) differ in exactly one bit of the "
+                                 "64-bit-word representation, plain and Montgomery form, every bit position"},
         "ec_violation_curves": {k: sorted(v) for k, v in sorted(vc.items())},
         "valid_inputs_refused": {k: a.n.get(k, 0) for k in ("rsa_valid_refused", "dsa_valid_refused", "elg_valid_refused", "ec_valid_refused")},
         "flip_fields_with_accepted_flips": ["%s:%s" % f for f in acc_fields],
